@@ -92,6 +92,7 @@ func (e *Exec) setResult(f *Frame, result ssa.Value, v Val) {
 
 // bindCallResult: `bind call Callee: a, b` names the results of the first call site of Callee in the root function.
 func (e *Exec) bindCallResult(cc *callCtx, v Val) {
+	e.recordFailStop(cc, v)
 	if cc.f != e.rootFrame || e.rootCtr == nil || (len(e.rootCtr.BindCalls) == 0 && len(e.rootCtr.SnapCalls) == 0) {
 		return
 	}
@@ -1251,5 +1252,55 @@ func (e *Exec) applyKeeps(cc *callCtx, ctr *FuncContract, pre *State) {
 				panic(fmt.Sprintf("fatal: contract of %s: keeps %s: not a map or slice", e.rootCtr.Name, ks.Text))
 			}
 		}
+	}
+}
+
+// recordFailStop: `failstop Callee, ...` of the root contract — remember the error result of the call; the obligations are
+// generated at loop back edges, early loop exits and at the function's exit (failStopAtEdge / failStopAtExit).
+func (e *Exec) recordFailStop(cc *callCtx, v Val) {
+	if cc.f != e.rootFrame || e.rootCtr == nil || len(e.rootCtr.FailStop) == 0 || e.discovery > 0 {
+		return
+	}
+	for _, n := range cc.names {
+		props, ok := e.rootCtr.FailStop[n]
+		if !ok {
+			continue
+		}
+		vals := v.Tup
+		if len(vals) == 0 {
+			vals = []Val{v}
+		}
+		last := vals[len(vals)-1]
+		if e.reg.sortOf(last.T) != "Any" {
+			panic(fmt.Sprintf("fatal: contract of %s: failstop %s: its last result is not an error", e.rootCtr.Name, n))
+		}
+		e.failSeq++
+		e.pendingFail = append(e.pendingFail, pendingFail{site: fmt.Sprintf("%s.%d", n, e.failSeq), props: props, err: last.Term, reach: cc.reach, block: cc.b})
+		return
+	}
+}
+
+// failStopAtEdge: leaving the current iteration of a loop (back edge or early exit) with a failed fail-stop call behind us.
+func (e *Exec) failStopAtEdge(f *Frame, li *loopInfo, cond Term, what string) {
+	if f != e.rootFrame || e.discovery > 0 {
+		return
+	}
+	for _, p := range e.pendingFail {
+		if !li.blocks[p.block] {
+			continue
+		}
+		e.oblige("failstop", p.site+"."+what, p.props, And(cond, p.reach), Eq(p.err, "nil_any"),
+			fmt.Sprintf("a failed call of %s does not stop the function: loop %d goes on (%s)", p.site, li.ordinal, what), "failstop "+p.site)
+	}
+}
+
+// failStopAtExit: the function returns although a fail-stop call failed: the error result must be non-nil.
+func (e *Exec) failStopAtExit(reach Term, retErr Term) {
+	if e.discovery > 0 {
+		return
+	}
+	for _, p := range e.pendingFail {
+		e.oblige("failstop", p.site+".return", p.props, And(reach, p.reach, Not(Eq(p.err, "nil_any"))), Not(Eq(retErr, "nil_any")),
+			fmt.Sprintf("a failed call of %s must make the function return a non-nil error", p.site), "failstop "+p.site)
 	}
 }
